@@ -13,6 +13,6 @@ LEVEL = dict(
 
 def run(ctx):
     F = ctx.facts("default")
-    sc, sites, st, tst = safety.run(ctx, F, scopes.C13_ENTRIES)
+    sc, sites, st, tst = safety.run(ctx, F, scopes.C13_ENTRIES, with_fmt=True)
     ctx.floor("R-INV", "C13 scope bodies", len(sc), 250)
     ctx.floor("R-INV", "C13 panic-capable sites", st["sites"], 120)
